@@ -310,14 +310,22 @@ def value_observations(rng, n):
         for m in range(rng.randint(1, 6)):
             members['M%d' % m] = rng.choice([0, 1, 2, 3, 4, 6, 8, 16, 32, 64, 128, 255, rng.randint(0, 255)])
         enums.append(('Gen%d' % g, type('Gen%d' % g, (BitFieldEnum,), dict(members))))
+    # flag enums that extend another one, overriding a member and adding one (a protocol revision that moved a bit)
+    for name, E in list(enums[-3:]):
+        own = [k for k, v in E.__dict__.items() if k.isupper() and isinstance(v, int) and not isinstance(v, bool)]
+        if own:
+            over = {own[0]: (getattr(E, own[0]) << 1 | 64) & 255, 'EXTRA': 128}
+            enums.append(('Sub' + name, type('Sub' + name, (E,), over)))
     for name, E in enums:
-        members = [[k, v] for k, v in sorted(E.__dict__.items()) if k.isupper() and isinstance(v, int) and not isinstance(v, bool)]
+        own = [[k, v] for k, v in sorted(E.__dict__.items()) if k.isupper() and isinstance(v, int) and not isinstance(v, bool)]
+        members = [[k, getattr(E, k)] for k in sorted(set(k for k in dir(E) if k.isupper()))
+                   if isinstance(getattr(E, k), int) and not isinstance(getattr(E, k), bool)]
         for v in range(256):
             try:
                 s = E.name_from_value(v)
             except Exception as e:      # noqa
                 s = 'raised:' + type(e).__name__
-            obs.append({'k': 'flag', 'enum': name, 'members': members, 'v': v, 'names': ['None'] if s is None else s.split('|')})
+            obs.append({'k': 'flag', 'enum': name, 'members': members, 'own': own, 'v': v, 'names': ['None'] if s is None else s.split('|')})
     return obs
 
 
